@@ -256,9 +256,9 @@ Section StepLm.
     assert (Z0 : 0 / pv = 0) by (unfold Qcdiv; ring). rewrite Z0.
     set (f := fmatch true _). clearbody f.
     destruct Z as [->|G].
-    - destruct (qltb_spec (qfrac 1 1000) 0) as [P|P]; [exfalso; qlra|].
+    - destruct (qltb_spec 0 0) as [P|P]; [exfalso; qlra|].
       assert (M : qmin u 0 = 0) by qlra. rewrite M. split; ring.
-    - destruct (qltb_spec (qfrac 1 1000) pv) as [P|P]; [|exfalso; qlra].
+    - destruct (qltb_spec 0 pv) as [P|P]; [|exfalso; qlra].
       rewrite (div_self pv) by (intro; subst; qlra). split; ring.
   Qed.
 
@@ -357,7 +357,7 @@ Section AnnualLm.
   Proof.
     intros Hj. unfold a_used_src, ann, vec. apply qsum_map_zero. intros s Hs. destruct (Hy s Hs) as (c & -> & [T E]).
     unfold s_used_src, srl. destruct Hj as [->| ->]; cbn [snd step_out so_src so_uts so_uea used_src_f c_src]; rewrite ?T, ?E;
-      destruct (qltb (qfrac 1 1000) (c_p c)); unfold Qcdiv; ring.
+      destruct (qltb 0 (c_p c)); unfold Qcdiv; ring.
   Qed.
 
   Lemma lm_used_on : used_on ELECTRICIDAD true data = a_used_src x EL_INSITU
